@@ -96,6 +96,9 @@ func (c vVecCfg) NewWith(train [][]float32) (VectorIndex, error) {
 	}
 	if c.Kind == "ivf" || c.Kind == "pq" || c.Kind == "ivfpq" {
 		ts := train
+		if ts == nil && c.Train == -4 {
+			ts = vLattice(c.Dim, 4*c.NList) // many clusters: a lattice of 4*nlist points
+		}
 		if ts == nil {
 			ts = vTrainSet(c.Dim, c.Train)
 		}
@@ -354,6 +357,7 @@ type vKindSys struct {
 	train      [][]float32                   // explicit training set (nil = cfg.Train)
 	hook       func(s *vKindSys, h []string) // extra per-state checks (C13, C14)
 	noMulti    bool
+	derived    bool // sweeps / large instances: state-derived thresholds and long restriction lists
 	noPrepared bool // lean mode (C13): no prepared-search reuse, no Remove-with-carried-vector variants (C02 has both)
 	polluted   bool // a probe retrained the index: nothing is judged on this instance any more
 	inRecheck  bool
@@ -371,10 +375,19 @@ type vKindSys struct {
 	qa         [][]float32 // query vectors (offset applied)
 }
 
+// vIDBase shifts every document id used by a vKindSys (ids, restrictions, node ids) by a
+// constant: the "bigids" shards run the same small spaces with ids around 2^16 (roaring
+// container boundary), 2^31 (sign bit) and 2^32-1.
+var vIDBase uint32
+
 func newKindSys(c *vCtx, cfg vVecCfg, nids int) *vKindSys {
 	s := &vKindSys{c: c, cfg: cfg, cfgS: cfg.String()}
+	b := vIDBase
+	if b != 0 {
+		s.cfgS += fmt.Sprintf(" idbase=%d", b)
+	}
 	for i := 1; i <= nids; i++ {
-		s.ids = append(s.ids, uint32(i))
+		s.ids = append(s.ids, b+uint32(i))
 	}
 	s.vals = vVecAlphabet(cfg.Dim)
 	s.vals = s.vals[:len(s.vals)-2]                   // drop the duplicate and the zero vector (covered by C01/C06)
@@ -424,7 +437,7 @@ func newKindSys(c *vCtx, cfg vVecCfg, nids int) *vKindSys {
 		for _, k := range []int{-1, 1, 2} {
 			for _, t := range thr {
 				// restrictions: absent ids, and an id named twice (a restriction is a set)
-				for _, r := range [][]uint32{nil, {1}, {2, 9}, {1, 1, 2}} {
+				for _, r := range [][]uint32{nil, {b + 1}, {b + 2, b + 9}, {b + 1, b + 1, b + 2}} {
 					for _, p := range probes {
 						for _, ef := range efs {
 							s.qs = append(s.qs, vVecQuery{Q: q, K: k, Thr: t, IDs: r, NProb: p, Ef: ef})
@@ -512,7 +525,7 @@ func (s *vKindSys) Apply(op vOp, hist []vOp, check bool) {
 			prepQ = append(prepQ, vVecQuery{Node: id, K: -1})
 		}
 		if len(s.qa) > 1 {
-			prepQ = append(prepQ, vVecQuery{Q: s.qa[0], K: 2}, vVecQuery{Q: s.qa[1], K: -1, IDs: []uint32{1, 2}})
+			prepQ = append(prepQ, vVecQuery{Q: s.qa[0], K: 2}, vVecQuery{Q: s.qa[1], K: -1, IDs: []uint32{vIDBase + 1, vIDBase + 2}})
 		}
 		for _, q := range prepQ {
 			ps := vBuildVecSearch(s.idx, q)
@@ -676,6 +689,137 @@ func (s *vKindSys) observe(h []string) {
 	if s.hook != nil {
 		s.hook(s, h)
 	}
+	if s.derived && !s.inRecheck {
+		s.observeDerived(h)
+	}
+}
+
+// observeDerived (sweeps and large instances): two input dimensions whose interesting
+// values depend on the state, enumerated from the state itself.
+//   - thresholds: for a query next to a stored vector (fractional offsets, so that squared
+//     and plain distances below 1 occur) and for an alphabet query, one threshold inside
+//     every one of the first gaps between consecutive candidate scores (and below the
+//     first, in the middle, above the last): every way a threshold can cut this ranking;
+//   - id restrictions: long lists (8 .. 1000 entries) with gaps AND duplicates, built so
+//     that max-min+1 == len(list), forwards and backwards.
+func (s *vKindSys) observeDerived(h []string) {
+	if len(s.m.live) < 2 {
+		return
+	}
+	ids := make([]uint32, 0, len(s.m.live))
+	for id := range s.m.live {
+		ids = append(ids, id)
+	}
+	sort.Slice(ids, func(i, j int) bool { return ids[i] < ids[j] })
+	exactKind := s.cfg.Kind != "hnsw"
+	full := 0
+	if s.cfg.Kind == "ivf" || s.cfg.Kind == "ivfpq" {
+		full = -1
+	}
+	judge := func(vq vVecQuery, cands []vCand, what string) {
+		s.c.Evaluations++
+		res, err := vRunVecQuery(s.idx, vq)
+		if err != nil {
+			s.c.Violation("search-error", what, s.cfgS, h, vq.String()+": "+err.Error())
+			return
+		}
+		msg := ""
+		if exactKind {
+			msg = vAcceptExact(res, cands, vq.K)
+		} else {
+			msg = vAcceptSound(res, cands, vq.K, true)
+		}
+		if msg != "" {
+			s.c.Violation("wrong-answer", what, s.cfgS, h, fmt.Sprintf("%s: %s; got [%s]", vq.String(), msg, vResStr(res)))
+		}
+		if len(cands) > 0 && len(cands) < len(s.m.live) {
+			s.c.Nontrivial(fmt.Sprintf("%s|%s|%s|%v|%d|%d", s.cfgS, what, s.m.key(), vq.Thr, len(vq.IDs), vq.K))
+		}
+	}
+	// --- thresholds
+	near := vCopyVec(s.m.live[ids[len(ids)/2]])
+	for j := range near {
+		if j < 4 {
+			near[j] += 0.3
+		}
+	}
+	if len(near) < 4 {
+		near[0] += 0.3
+	}
+	for _, q := range [][]float32{near, s.qa[1]} {
+		if s.cfg.Metric == Cosine && vIsZero(q) {
+			continue
+		}
+		all, _ := vEligible(s.cfg.Metric, s.m.live, vVecQuery{Q: q, K: -1}, false, s.scoreOf(q))
+		var thrs []float64
+		gaps := []int{0, 1, 2, 3, len(all) / 2, len(all) - 2}
+		if len(all) > 0 && all[0].dist > 1e-3 {
+			thrs = append(thrs, all[0].dist/2)
+		}
+		for _, g := range gaps {
+			if g < 0 || g+1 >= len(all) {
+				continue
+			}
+			lo, hi := all[g].dist, all[g+1].dist
+			if hi-lo > 1e-3*math.Max(1, hi) {
+				thrs = append(thrs, (lo+hi)/2)
+			}
+		}
+		if len(all) > 0 {
+			thrs = append(thrs, all[len(all)-1].dist*1.5+1)
+		}
+		for _, t := range thrs {
+			var cut []vCand
+			for _, cnd := range all {
+				if cnd.dist <= t {
+					cut = append(cut, cnd)
+				}
+			}
+			for _, k := range []int{-1, 2} {
+				judge(vVecQuery{Q: q, K: k, Thr: float32(t), NProb: full}, cut, "derived-threshold")
+			}
+		}
+	}
+	// --- long restriction lists with gaps and duplicates
+	q := s.qa[1]
+	if s.cfg.Metric == Cosine && vIsZero(q) {
+		q = s.qa[0]
+	}
+	all, _ := vEligible(s.cfg.Metric, s.m.live, vVecQuery{Q: q, K: -1}, false, s.scoreOf(q))
+	maxID := int(ids[len(ids)-1] - vIDBase)
+	for _, L := range []int{8, 16, 31, 32, 33, 40, 64, 100, 256, 1000} {
+		if L > maxID {
+			break
+		}
+		var list []uint32
+		for i := 1; i <= L; i++ {
+			if i%4 != 3 {
+				list = append(list, vIDBase+uint32(i))
+			}
+		}
+		for i := 0; len(list) < L; i++ {
+			list = append(list, list[i]) // duplicates: as many as there are gaps
+		}
+		in := map[uint32]bool{}
+		for _, id := range list {
+			in[id] = true
+		}
+		var cut []vCand
+		for _, cnd := range all {
+			if in[cnd.id] {
+				cut = append(cut, cnd)
+			}
+		}
+		rev := make([]uint32, len(list))
+		for i, id := range list {
+			rev[len(list)-1-i] = id
+		}
+		for _, l := range [][]uint32{list, rev} {
+			for _, k := range []int{-1, 3} {
+				judge(vVecQuery{Q: q, K: k, IDs: l, NProb: full}, cut, "long-restriction")
+			}
+		}
+	}
 }
 
 // recheck: searching must not change later answers (see vFlatSys.recheck).
@@ -708,7 +852,7 @@ func vCauseVec(m *vVecModel, res []VectorResult) string {
 
 // node search == query search with the stored vector; unknown / removed node => error
 func (s *vKindSys) observeNodes(h []string) {
-	for _, id := range append(append([]uint32{}, s.ids...), 9) {
+	for _, id := range append(append([]uint32{}, s.ids...), vIDBase+9) {
 		for _, k := range []int{-1, 2} {
 			s.c.Evaluations++
 			resN, errN := vRunVecQuery(s.idx, vVecQuery{Node: id, K: k})
@@ -742,7 +886,7 @@ func (s *vKindSys) observeNodes(h []string) {
 
 // several node ids at once: == several stored vectors as queries; any dead id => error
 func (s *vKindSys) observeNodePairs(h []string) {
-	ids := append(append([]uint32{}, s.ids...), 9)
+	ids := append(append([]uint32{}, s.ids...), vIDBase+9)
 	for _, a := range ids {
 		for _, b := range ids {
 			if a == b {
@@ -907,6 +1051,7 @@ func (s *vKindSys) Key() string {
 // alphabet before and after the flush: capacity / growth effects (counts crossing 8, 16,
 // 32, 64 ...) that the small-scope BFS cannot reach. Enumerated over n, not sampled.
 func vKindSweep(c *vCtx, cfg vVecCfg, maxN int, hook func(s *vKindSys, h []string)) {
+	ib := int(vIDBase)
 	for n := 1; n <= maxN; n++ {
 		for pattern := 0; pattern < 5; pattern++ {
 			// tails after the n adds:
@@ -928,12 +1073,13 @@ func vKindSweep(c *vCtx, cfg vVecCfg, maxN int, hook func(s *vKindSys, h []strin
 				return
 			}
 			s := newKindSys(c, cfg, 3)
-			s.cfgS = cfg.String() + fmt.Sprintf(" sweep n=%d", n)
+			s.cfgS += fmt.Sprintf(" sweep n=%d", n)
 			if pattern > 0 {
 				s.cfgS += fmt.Sprintf(" pattern=%d", pattern)
 			}
 			s.vals = vStructuredVecs(cfg.Dim, n+2)
 			s.hook = hook
+			s.derived = true
 			s.noMulti = n > 12
 			s.Reset()
 			var hist []vOp
@@ -947,41 +1093,41 @@ func vKindSweep(c *vCtx, cfg vVecCfg, maxN int, hook func(s *vKindSys, h []strin
 				if cfg.Kind == "hnsw" && i%5 == 4 {
 					lvl = 1
 				}
-				ap(vOp{K: "Add", A: i + 1, B: i, C: lvl}, i == n-1)
+				ap(vOp{K: "Add", A: ib + i + 1, B: i, C: lvl}, i == n-1)
 			}
 			switch pattern {
 			case 0:
 				for i := 2; i < n; i += 3 {
-					ap(vOp{K: "Remove", A: i + 1, B: (i / 3) % 2}, i+3 >= n)
+					ap(vOp{K: "Remove", A: ib + i + 1, B: (i / 3) % 2}, i+3 >= n)
 				}
 			case 1:
 				for i := 0; i < n; i++ {
 					if i%5 != 0 {
-						ap(vOp{K: "Remove", A: i + 1, B: i % 2}, i == n-1)
+						ap(vOp{K: "Remove", A: ib + i + 1, B: i % 2}, i == n-1)
 					}
 				}
 			case 2:
 				for i := 0; i < n-1; i++ {
-					ap(vOp{K: "Remove", A: i + 1}, i == n-2)
+					ap(vOp{K: "Remove", A: ib + i + 1}, i == n-2)
 				}
 			case 3:
 				mid := n/2 + 1
-				ap(vOp{K: "Remove", A: mid}, false)
-				ap(vOp{K: "Add", A: mid, B: n + 1}, true)
+				ap(vOp{K: "Remove", A: ib + mid}, false)
+				ap(vOp{K: "Add", A: ib + mid, B: n + 1}, true)
 			case 4:
 				for i := 0; i < n; i++ {
-					ap(vOp{K: "Remove", A: i + 1}, false)
+					ap(vOp{K: "Remove", A: ib + i + 1}, false)
 				}
-				ap(vOp{K: "Add", A: n + 1, B: n}, true)
+				ap(vOp{K: "Add", A: ib + n + 1, B: n}, true)
 			}
 			ap(vOp{K: "Flush"}, true)
 			switch {
 			case pattern == 4:
-				ap(vOp{K: "Add", A: 1, B: n + 1}, true)
+				ap(vOp{K: "Add", A: ib + 1, B: n + 1}, true)
 			case pattern == 3:
 			case n < maxN:
 				// continue after the flush: one more add
-				ap(vOp{K: "Add", A: n + 1, B: n}, true)
+				ap(vOp{K: "Add", A: ib + n + 1, B: n}, true)
 			}
 			c.Traces++
 			c.NewState(s.cfgS)
@@ -1003,9 +1149,10 @@ func vKindLarge(c *vCtx, cfg vVecCfg, sizes []int, hook func(s *vKindSys, h []st
 			return
 		}
 		s := newKindSys(c, cfg, 3)
-		s.cfgS = cfg.String() + fmt.Sprintf(" large n=%d", n)
+		s.cfgS += fmt.Sprintf(" large n=%d", n)
 		s.vals = vStructuredVecs(cfg.Dim, n+1)
 		s.hook = hook
+		s.derived = true
 		s.noMulti = true
 		s.noPrepared = true
 		thr := float32(0)
@@ -1024,7 +1171,7 @@ func vKindLarge(c *vCtx, cfg vVecCfg, sizes []int, hook func(s *vKindSys, h []st
 		s.qs = nil
 		qv := [][]float32{s.qa[0], s.qa[len(s.qa)/2], s.vals[n/3]}
 		for _, q := range qv {
-			for _, k := range []int{1, 2, 3, 5, 10, 25, n / 8, n / 4, n / 3, n / 2, n - 1, n, -1} {
+			for _, k := range []int{1, 2, 3, 5, 10, 25, n / 8, n / 4, n / 3, n / 2, n - 1, n, -1, math.MaxInt64} {
 				if k == 0 {
 					continue
 				}
@@ -1053,10 +1200,113 @@ func vKindLarge(c *vCtx, cfg vVecCfg, sizes []int, hook func(s *vKindSys, h []st
 			ap(vOp{K: "Remove", A: i + 1}, i+7 >= n)
 		}
 		ap(vOp{K: "Flush"}, true)
+		if n >= 1030 {
+			// mass purge: three quarters of what is left removed at once (one flush purges
+			// several hundred / more than 1024 vectors), then purged ids are re-added
+			last := 0
+			for i := 0; i < n; i++ {
+				if _, live := s.m.live[vIDBase+uint32(i+1)]; live && i%4 != 0 {
+					last = i
+				}
+			}
+			for i := 0; i < n; i++ {
+				if _, live := s.m.live[vIDBase+uint32(i+1)]; live && i%4 != 0 {
+					ap(vOp{K: "Remove", A: int(vIDBase) + i + 1}, i == last)
+				}
+			}
+			ap(vOp{K: "Flush"}, true)
+			ap(vOp{K: "Add", A: int(vIDBase) + 2, B: n}, true)
+			ap(vOp{K: "Add", A: int(vIDBase) + last + 1, B: 1}, true)
+		}
 		c.Traces++
 		c.NewState(s.cfgS)
 	}
 	c.Sample(fmt.Sprintf("%s: large instances n in %v, k up to n, every 7th removed, flush", cfg.String(), sizes))
+}
+
+// id bases of the "bigids" shards: ids straddle 2^16, 2^31 and end at 2^32-1
+var vIDBases = []uint32{65533, 1<<31 - 3, math.MaxUint32 - 14}
+
+func vIDBaseTag() string {
+	if vIDBase == 0 {
+		return ""
+	}
+	return fmt.Sprintf(" idbase=%d", vIDBase)
+}
+
+// vKindEndurance: ONE long-lived index. n searches in a row (three alternating queries;
+// every answer must equal the first, which the oracle has judged), then n add / remove
+// cycles with a flush every 48 cycles (the index never holds more than ~56 vectors, so
+// HNSW with M >= 32 stays in its exactness regime), judged with the whole oracle every
+// 997 cycles and at the end. n = 70 000 passes every 16-bit counter, generation stamp or
+// pool high-water mark an implementation might keep per index.
+func vKindEndurance(c *vCtx, cfg vVecCfg, n int, hook func(s *vKindSys, h []string)) {
+	s := newKindSys(c, cfg, 3)
+	s.cfgS += fmt.Sprintf(" endurance n=%d", n)
+	s.vals = vStructuredVecs(cfg.Dim, 64)
+	s.hook = hook
+	s.noMulti = true
+	s.noPrepared = true
+	s.Reset()
+	var hist []vOp
+	ap := func(op vOp, check bool) {
+		s.Apply(op, hist, check)
+		if len(hist) < 64 {
+			hist = append(hist, op)
+		}
+		c.Transitions++
+	}
+	for i := 0; i < 6; i++ {
+		ap(vOp{K: "Add", A: i + 1, B: i}, false)
+	}
+	ap(vOp{K: "Remove", A: 1}, true)
+	qs := []vVecQuery{{Q: s.qa[0], K: -1, NProb: -1}, {Q: s.qa[1], K: 2, NProb: -1}, {Q: s.vals[3], K: 1, NProb: -1}}
+	var first [3]string
+	for i := 0; i < n; i++ {
+		if i%4096 == 0 && c.Expired() {
+			c.Bound = fmt.Sprintf("endurance: deadline after %d searches", i)
+			return
+		}
+		res, err := vRunVecQuery(s.idx, qs[i%3])
+		// compared tie-insensitively: the score list (order among equal scores and the
+		// choice among ties at the k-th place are unspecified)
+		sc := make([]float64, len(res))
+		for j, r := range res {
+			sc[j] = float64(r.Score)
+		}
+		sort.Float64s(sc)
+		got := fmt.Sprintf("%v|%v", err, sc)
+		c.Evaluations++
+		if i < 3 {
+			first[i] = got
+			continue
+		}
+		if got != first[i%3] {
+			s.c.Violation("answer-changed-after-many-searches", "", s.cfgS, vHistStrings(hist), fmt.Sprintf("search number %d of %s returned [%s], the first one [%s]", i+1, qs[i%3].String(), got, first[i%3]))
+			break
+		}
+	}
+	s.observe(append(vHistStrings(hist), fmt.Sprintf("(%d searches)", n)))
+	live := []int{2, 3, 4, 5, 6}
+	for i := 0; i < n; i++ {
+		if i%4096 == 0 && c.Expired() {
+			c.Bound = fmt.Sprintf("endurance: deadline after %d add/remove cycles", i)
+			return
+		}
+		id := 100 + i
+		ap(vOp{K: "Add", A: id, B: i % 64}, false)
+		live = append(live, id)
+		ap(vOp{K: "Remove", A: live[0]}, i%997 == 0)
+		live = live[1:]
+		if i%48 == 47 {
+			ap(vOp{K: "Flush"}, i%997 < 48)
+		}
+	}
+	ap(vOp{K: "Flush"}, true)
+	c.Traces++
+	c.NewState(s.cfgS)
+	c.Nontrivial(s.cfgS)
+	c.Sample(fmt.Sprintf("%s: %d searches then %d add/remove cycles on one index", cfg.String(), n, n))
 }
 
 func vLargeSizes(tier string) []int {
@@ -1075,6 +1325,12 @@ func vSweepCfgs() []vVecCfg {
 		{Kind: "ivf", Metric: L2Squared, Dim: 3, NList: 5, Train: 2},
 		{Kind: "pq", Metric: Euclidean, Dim: 4, M: 2, NBits: 3, Train: 2},
 		{Kind: "ivfpq", Metric: Euclidean, Dim: 4, NList: 3, M: 2, NBits: 3, Train: 2},
+		// larger dimensions (odd, and around SIMD / unrolling widths)
+		{Kind: "flat", Metric: L2Squared, Dim: 33},
+		{Kind: "hnsw", Metric: Cosine, Dim: 17, M: 3, Ef: 12},
+		{Kind: "ivf", Metric: Cosine, Dim: 16, NList: 3, Train: 2},
+		{Kind: "pq", Metric: Euclidean, Dim: 32, M: 8, NBits: 3, Train: 2},
+		{Kind: "ivfpq", Metric: L2Squared, Dim: 24, NList: 2, M: 3, NBits: 2, Train: 2},
 	}
 }
 
@@ -1149,10 +1405,33 @@ func init() {
 				cfg := cfg
 				sh = append(sh, vShard{Name: "sweep/" + strings.ReplaceAll(cfg.String(), " ", ","), Run: func(c *vCtx) { vKindSweep(c, cfg, maxN, nil) }})
 				sh = append(sh, vShard{Name: "large/" + strings.ReplaceAll(cfg.String(), " ", ","), Run: func(c *vCtx) { vKindLarge(c, cfg, vLargeSizes(tier), nil) }})
+				sh = append(sh, vShard{Name: "endurance/" + strings.ReplaceAll(cfg.String(), " ", ","), Run: func(c *vCtx) { vKindEndurance(c, cfg, 70000, nil) }})
+				for _, base := range vIDBases {
+					base := base
+					sh = append(sh, vShard{Name: fmt.Sprintf("bigids/%d/%s", base, strings.ReplaceAll(cfg.String(), " ", ",")), Run: func(c *vCtx) {
+						vIDBase = base
+						defer func() { vIDBase = 0 }()
+						vBFS(c, newKindSys(c, cfg, 3), 3)
+						vKindSweep(c, cfg, 12, nil)
+					}})
+				}
 			}
 			return sh
 		},
 		Replay: func(c *vCtx, v *vViolation) bool {
+			if i := strings.Index(v.Config, " idbase="); i >= 0 {
+				var b uint32
+				fmt.Sscanf(v.Config[i:], " idbase=%d", &b)
+				vIDBase = b
+				defer func() { vIDBase = 0 }()
+			}
+			if i := strings.Index(v.Config, " endurance n="); i >= 0 {
+				var n int
+				fmt.Sscanf(v.Config[i:], " endurance n=%d", &n)
+				vKindEndurance(c, vParseVecCfg(v.Config[:i]), n, nil)
+				_, ok := c.viol[v.Sig()]
+				return ok
+			}
 			if i := strings.Index(v.Config, " large n="); i >= 0 {
 				var n int
 				fmt.Sscanf(v.Config[i:], " large n=%d", &n)
